@@ -34,10 +34,14 @@ def _probe_flag(flag):
 
 
 def prove(ctx, modules):
-    from ..translate import enums
-    msgs = [schedflags.generate(common.REPO, common.LEAN, probe=_probe_flag), enums.generate(common.REPO, common.LEAN)]
+    from ..translate import enums, schedsrc
+    msgs = [schedflags.generate(common.REPO, common.LEAN, probe=_probe_flag), enums.generate(common.REPO, common.LEAN),
+            schedsrc.generate(common.REPO, common.LEAN)]
     ctx.notes.append(f"translator(schedflags): {msgs[0][1]}")
     ctx.notes.append(f"translator(enums): {msgs[1][1]}")
+    ctx.notes.append(f"translator(schedsrc): {msgs[2][1]}")
+    # which decision functions were regenerated from the source text in this run, which fell back on the model's own definition
+    ctx.extra_cov["schedsrc_translator"] = dict(schedsrc.LAST)
     # source obligations on JobState / DependencyStatus (Properties/SchedSrc.lean) belong to every scheduler property
     common.check_proofs(ctx, list(modules) + [m for m in ["XpmVerif.Properties.SchedSrc"] if m not in modules], translate_msgs=msgs)
 
